@@ -257,7 +257,10 @@ def replay_file(prop: str, path: str):
 
 
 def write_evidence(prop, tier, seed, level, coverage, wall, violations, assumptions):
-    os.makedirs(os.path.join(VERIF, "evidence"), exist_ok=True)
+    # evidence describes /repo itself: a trial against a scratch tree (VERIF_REPO) writes elsewhere
+    scratch = os.path.realpath(os.environ.get("VERIF_REPO") or "/repo") != os.path.realpath("/repo")
+    evdir = os.path.join(VERIF, "failures", "scratch-evidence") if scratch else os.path.join(VERIF, "evidence")
+    os.makedirs(evdir, exist_ok=True)
     ev = {
         "property_id": prop,
         "tier": tier,
@@ -268,7 +271,7 @@ def write_evidence(prop, tier, seed, level, coverage, wall, violations, assumpti
         "wall_s": round(wall, 2),
         "violations": violations,
     }
-    with open(os.path.join(VERIF, "evidence", f"{prop}.json"), "w") as f:
+    with open(os.path.join(evdir, f"{prop}.json"), "w") as f:
         json.dump(ev, f, indent=1, default=str)
 
 
